@@ -29,6 +29,7 @@ pub struct Session {
     pub pkg: Option<Package<Medium>>,
     pub med: Medium,
     pub last_len_ok: bool,
+    pub last_error: String,
 }
 
 pub fn ptype_of(s: &str) -> PackageType {
@@ -132,7 +133,7 @@ pub fn summary_json<F>(p: &Package<F>) -> J {
 
 impl Session {
     pub fn empty() -> Session {
-        Session { pkg: None, med: Medium::new(Vec::new()), last_len_ok: true }
+        Session { pkg: None, med: Medium::new(Vec::new()), last_len_ok: true, last_error: String::new() }
     }
 
     /// Executes one event; returns "Ok" | "Err" | "panic".
@@ -142,7 +143,10 @@ impl Session {
         let r = catch_unwind(AssertUnwindSafe(|| self.exec_inner(&op, &a)));
         match r {
             Ok(Ok(())) => "Ok".into(),
-            Ok(Err(_)) => "Err".into(),
+            Ok(Err(e)) => {
+                self.last_error = e.to_string();
+                "Err".into()
+            }
             Err(_) => "panic".into(),
         }
     }
@@ -158,6 +162,14 @@ impl Session {
                 self.med = new_medium(Vec::new());
                 let p = Package::create(ptype_of(a["ptype"].as_str().unwrap_or("Installer")), self.med.handle())?;
                 self.pkg = Some(p);
+                Ok(())
+            }
+            "OpenImage" => {
+                // an independently encoded database (C02)
+                let bytes = crate::encode::encode_image(a).map_err(|e| std::io::Error::new(std::io::ErrorKind::Other, e))?;
+                self.pkg = None;
+                self.med = new_medium(bytes);
+                self.pkg = Some(Package::open(self.med.handle())?);
                 Ok(())
             }
             "CreateTable" => {
